@@ -44,6 +44,7 @@ Oracles on the real code (each is a clause of the property itself, evaluated dir
 from __future__ import annotations
 
 import contextlib
+import copy as _copy_module
 import io
 import math
 from fractions import Fraction
@@ -84,7 +85,7 @@ def pp():
 EPS = common.EPS
 KINDS = {"constant": 0, "adaptive": 1, "trust": 2}
 VERDICTS = ["very", "ok", "bad"]
-KCODE = {"huber": 1, "pseudohuber": 2, "cauchy": 3}
+KCODE = {"huber": 1, "pseudohuber": 2, "cauchy": 3, "shift": 4}
 
 
 # ============================================================================ small helpers
@@ -106,7 +107,8 @@ def rel_close(a: float, b: Fraction, tol: float) -> bool:
     a = Fraction(a)
     if a == b:
         return True
-    return abs(a - b) <= Fraction(tol) * max(abs(a), abs(b))
+    # gradual underflow: below 2^-1022 the spacing of doubles is the absolute 2^-1074, not relative eps
+    return abs(a - b) <= Fraction(tol) * max(abs(a), abs(b)) + Fraction(8, 2 ** 1074)
 
 
 FMAX = 1.7976931348623157e308
@@ -276,7 +278,11 @@ def allowed_verdicts(h, last, loss, J, D, R, dtype):
 def strategy_attrs(st) -> dict:
     """public state of a strategy object (must not be changed by `update`: all mutable state lives in pg)"""
     out = {}
+    if isinstance(st, _InnerProxy):
+        st = object.__getattribute__(st, "_obj")
     for k, v in vars(st).items():
+        if k in ("flavour",):
+            continue
         if isinstance(v, dict):
             out[k] = dict(v)
         elif isinstance(v, (int, float, bool, str, type(None))):
@@ -317,6 +323,61 @@ class RecStrategy:
                                                         (ev["J"], ev["D"], ev["R"], ev["last"], ev["loss"]))
                               if not torch.equal(torch.Tensor.as_subclass(ref.detach(), torch.Tensor), cl)]
         self.log.append(ev)
+
+
+_SUBCLS = {}
+
+
+def rec_strategy_subclass(inner, flavour):
+    """the recorder as a USER SUBCLASS of the library strategy class of `inner` (so that isinstance(strategy, Adaptive) holds
+    for what LM receives). flavour 'delegate': update records and then applies the library rule of its base class;
+    flavour 'own': update applies the user's own law (damping ×3 after a worse trial, ÷3 otherwise) — LM must call exactly
+    this method, once per completed trial, and nothing else may touch pg."""
+    base = type(inner)
+    key = (base, flavour)
+    if key not in _SUBCLS:
+        def update(self, pg, last, loss, J, D, R, *args, **kwargs):
+            RecStrategy.update(self, pg, last, loss, J, D, R, *args, **kwargs)
+
+        def inner_update(self, pg, last, loss, J, D, R):
+            if flavour == "own":
+                pg["damping"] = pg["damping"] * 3.0 if bool(loss > last) else pg["damping"] / 3.0
+            else:
+                base.update(self, pg, last=last, loss=loss, J=J, D=D, R=R)
+        _SUBCLS[key] = type("User" + base.__name__, (base,), {"update": update, "_apply": inner_update})
+    obj = _copy_module.copy(inner)
+    obj.__class__ = _SUBCLS[key]
+    obj.log, obj.module, obj.flavour = [], None, flavour
+    obj.inner = _InnerProxy(obj)
+    return obj
+
+
+class _InnerProxy:
+    """what RecStrategy.update calls `self.inner`: attribute reads go to the strategy object itself, `update` to its law"""
+
+    def __init__(self, obj):
+        object.__setattr__(self, "_obj", obj)
+
+    def __getattr__(self, name):
+        return getattr(object.__getattribute__(self, "_obj"), name)
+
+    def update(self, pg, last, loss, J, D, R):
+        o = object.__getattribute__(self, "_obj")
+        return o._apply(pg, last, loss, J, D, R)
+
+
+def rec_solver_subclass(rec, base_name):
+    """a user solver DERIVING from a shipped solver class; its forward is the recording solver `rec` around the base
+    class's own forward"""
+    S = pp().optim.solver
+    base = {"cholesky": S.Cholesky, "pinv": S.PINV, "lstsq": S.LSTSQ}[base_name]
+
+    class UserSolver(base):
+        def forward(self, A, b):
+            return rec(A, b)
+    us = UserSolver()
+    rec.inner = lambda A, b: base.forward(us, A, b)
+    return us
 
 
 class ScriptedFailure(RuntimeError):
@@ -393,11 +454,14 @@ def build_problem(scn):
     if fam == "lin":
         n, M, d = scn["n"], scn["M"], scn["d"]
         rows = M * d
-        U, _ = torch.linalg.qr(_rand(g, rows, rows))
-        V, _ = torch.linalg.qr(_rand(g, n, n))
-        kk = min(rows, n)
-        sv = torch.tensor([10.0 ** (-scn["logcond"] * i / max(1, kk - 1)) for i in range(kk)], dtype=torch.float64) * scn["ascale"]
-        A = (U[:, :kk] * sv) @ V[:, :kk].T
+        if rows > 300:
+            A = _rand(g, rows, n) * scn["ascale"]         # many residuals: plain random design matrix
+        else:
+            U, _ = torch.linalg.qr(_rand(g, rows, rows))
+            V, _ = torch.linalg.qr(_rand(g, n, n))
+            kk = min(rows, n)
+            sv = torch.tensor([10.0 ** (-scn["logcond"] * i / max(1, kk - 1)) for i in range(kk)], dtype=torch.float64) * scn["ascale"]
+            A = (U[:, :kk] * sv) @ V[:, :kk].T
         theta0 = _rand(g, n) * scn["start"]
         b = _rand(g, M, d)
         frozen, fold = scn.get("frozen"), scn.get("fold_target")
@@ -526,7 +590,14 @@ def make_kernels(spec):
             return None
         key = (s[0], float(s[1]))      # kernel objects are shared between optimizers of one run as well
         if key not in _SHARED["kernels"]:
-            _SHARED["kernels"][key] = {"huber": K.Huber, "pseudohuber": K.PseudoHuber, "cauchy": K.Cauchy}[s[0]](s[1])
+            if s[0] == "shift":
+                # a USER kernel: derives from the shipped Huber and overrides forward (rho(x) = Huber(x) - delta², may be < 0)
+                class ShiftedHuber(K.Huber):
+                    def forward(self, input):
+                        return super().forward(input) - self.delta2
+                _SHARED["kernels"][key] = ShiftedHuber(s[1])
+            else:
+                _SHARED["kernels"][key] = {"huber": K.Huber, "pseudohuber": K.PseudoHuber, "cauchy": K.Cauchy}[s[0]](s[1])
         return _SHARED["kernels"][key]
     if isinstance(spec[0], str):
         return one(spec)
@@ -553,6 +624,8 @@ def rho(kspec, x):
         return 2 * d * d * ((x / (d * d) + 1).sqrt() - 1)
     if name == "cauchy":
         return d * d * torch.log1p(x / (d * d))
+    if name == "shift":
+        return torch.where(x.sqrt() < d, x, 2 * d * x.sqrt() - d * d) - d * d
     raise ValueError(name)
 
 
@@ -577,7 +650,7 @@ def rho_scale(kspec, x):
     if kspec is None:
         return x
     name, d = kspec
-    return rho(kspec, x) + (2 * d * d if name != "cauchy" else d * d)
+    return rho(kspec, x).abs() + (2 * d * d if name != "cauchy" else d * d)
 
 
 def loss_and_scale(outs, kspec):
@@ -910,7 +983,29 @@ def _scenario_steps(ctx: Ctx, scn, collect, shared_inner=None, sink=None):
     import pickle as _pickle
     P = pp()
     n0 = len(ctx.failures)
+    ddt = scn.get("default_dtype")
+
+    @contextlib.contextmanager
+    def dd():
+        """process-wide default dtype in force while the library code runs (construction and step)"""
+        if not ddt:
+            yield
+            return
+        old_ = torch.get_default_dtype()
+        torch.set_default_dtype(getattr(torch, ddt))
+        try:
+            yield
+        finally:
+            torch.set_default_dtype(old_)
     module, inp, target = build_problem(scn)
+    if scn.get("sub_model"):
+        base_cls = type(module)
+
+        class SubModel(base_cls):          # a user model deriving from another model, overriding forward
+            def forward(self, *a, **k):
+                out = base_cls.forward(self, *a, **k)
+                return tuple(2 * o for o in out) if isinstance(out, tuple) else 2 * out
+        module.__class__ = SubModel
     pbufs = apply_param_view(module, scn.get("param_view"))
     # how the single input is handed to step(): tensor / (tensor,) / [tensor] / {name: tensor} / python scalar
     cont = scn.get("input_container", "tensor")
@@ -938,9 +1033,14 @@ def _scenario_steps(ctx: Ctx, scn, collect, shared_inner=None, sink=None):
 
     def construct(mod, solver_, inner_):
         """optimizer for `mod` exactly as the scenario prescribes"""
+        rec_ = solver_
         solver_.module = mod
+        solver_obj = solver_
+        if scn.get("sub_solver") and scn["solver"] in ("cholesky", "pinv", "lstsq"):
+            solver_obj = rec_solver_subclass(solver_, scn["solver"])
+        solver_ = solver_obj
         if is_lm:
-            strat_ = RecStrategy(inner_)
+            strat_ = rec_strategy_subclass(inner_, scn["sub_strategy"]) if scn.get("sub_strategy") else RecStrategy(inner_)
             strat_.module = mod
             if positional:
                 opt_ = P.optim.LM(mod, solver_, strat_, kern, corr, w_ctor, scn["reject"], scn["lm_min"], scn["lm_max"], vec)
@@ -953,10 +1053,12 @@ def _scenario_steps(ctx: Ctx, scn, collect, shared_inner=None, sink=None):
                 opt_ = P.optim.GN(mod, solver_, kern, corr, w_ctor, vec)
             else:
                 opt_ = P.optim.GN(mod, solver=solver_, kernel=kern, corrector=corr, weight=w_ctor, vectorize=vec)
-        solver_.opt = opt_
+        rec_.opt = opt_
         return opt_, strat_
-    opt, strat = construct(module, solver, (shared_inner if shared_inner is not None else make_strategy(scn["strategy"], positional))
-                           if is_lm else None)
+    with dd():
+        opt, strat = construct(module, solver, (shared_inner if shared_inner is not None else make_strategy(scn["strategy"], positional))
+                               if is_lm else None)
+    own_law = is_lm and scn.get("sub_strategy") == "own"
     call_style = scn.get("call_style", "positional")
     grad_mode = scn.get("grad_mode")
 
@@ -1060,6 +1162,8 @@ def _scenario_steps(ctx: Ctx, scn, collect, shared_inner=None, sink=None):
         solver.call, solver.trial = call, 0
         s0, u0 = len(solver.log), (len(strat.log) if strat else 0)
         given = [raw(p) for p in module.parameters()]
+        gms, rgs = scn.get("grad_modes"), scn.get("req_grads")
+        gm_ = gms[call % len(gms)] if gms else grad_mode
         form = forms[call % len(forms)] if forms else "plain"
         inp_c, chk_in = present(inp, form)
         tgt_c, chk_tg = present(target, form if form != "plain" else "plain")
@@ -1074,19 +1178,19 @@ def _scenario_steps(ctx: Ctx, scn, collect, shared_inner=None, sink=None):
         cached = float(opt.loss) if had_cache else None
         pg_before_call = pg_state(pg) if is_lm else None
         hyper_call = pg_hyper(pg, strat.inner) if is_lm else None
-        attrs0 = optimizer_attrs(opt, is_lm, skind)
+        attrs0 = optimizer_attrs(opt, is_lm, None if own_law else skind)
         ctx.count(f"class.input-form.{form}")
         if call == 0 and scn.get("param_view"):
             ctx.count(f"class.param-view.{scn['param_view']}")
         if call == 0 and shared_inner is not None:
             ctx.count("class.shared-strategy-object")
         exc = None
-        if scn.get("input_requires_grad"):
+        if (rgs[call % len(rgs)] if rgs else scn.get("input_requires_grad")):
             for t_ in (list(inp_c.values()) if isinstance(inp_c, dict) else list(inp_c) if isinstance(inp_c, (tuple, list)) else [inp_c]):
                 if isinstance(t_, torch.Tensor) and not isinstance(t_, P.LieTensor) and t_.is_floating_point() and t_.grad_fn is None:
                     t_.requires_grad_(True)
-        gctx2 = lambda: (torch.enable_grad() if grad_mode == "enable_grad" else torch.no_grad() if grad_mode == "no_grad" else
-                         torch.inference_mode() if grad_mode == "inference" else contextlib.nullcontext())
+        gctx2 = lambda: (torch.enable_grad() if gm_ == "enable_grad" else torch.no_grad() if gm_ == "no_grad" else
+                         torch.inference_mode() if gm_ == "inference" else contextlib.nullcontext())
         gctx = gctx2()
         def ff(x):
             try:
@@ -1097,7 +1201,7 @@ def _scenario_steps(ctx: Ctx, scn, collect, shared_inner=None, sink=None):
                 "rc": getattr(opt, "reject_count", None), "pg": pg_state(pg) if is_lm else None}
         arm["phase"] = fwd_raise.get(call)
         ctx.count(f"class.call-style.{call_style}") if call == 0 else None
-        with contextlib.redirect_stdout(io.StringIO()), gctx:
+        with contextlib.redirect_stdout(io.StringIO()), gctx, dd():
             try:
                 ret = do_step(opt, inp_c, tgt_c)
             except ModelFailure:
@@ -1196,7 +1300,7 @@ def _scenario_steps(ctx: Ctx, scn, collect, shared_inner=None, sink=None):
         for buf, mask in pbufs:
             if not bool((buf[mask] == SENT).all()):
                 fail(f"purity: storage outside a parameter that is a view of a larger buffer was written (call {call})")
-        changed = diff_attrs(attrs0, optimizer_attrs(opt, is_lm, skind))
+        changed = diff_attrs(attrs0, optimizer_attrs(opt, is_lm, None if own_law else skind))
         if changed:
             fail(f"attributes: step() changed the optimizer's configuration {changed} (call {call})")
         for ev in sol:
@@ -1227,6 +1331,23 @@ def _scenario_steps(ctx: Ctx, scn, collect, shared_inner=None, sink=None):
             fail(f"return-type: step() returned {type(ret).__name__} of shape {tuple(getattr(ret, 'shape', ()))}, expected a scalar tensor "
                  f"(call {call})")
             return
+        # ---- metadata: the loss is a 0-dim tensor of the model's dtype whatever the process-wide default dtype is; the
+        #      damping stays a Python float; the tensors given to the user's strategy have the model's dtype
+        if exc is None:
+            want_dt = getattr(torch, dtype)
+            meta = []
+            for nm_, t_ in (("returned loss", ret), ("optimizer.loss", getattr(opt, "loss", None)), ("optimizer.last", getattr(opt, "last", None))):
+                if isinstance(t_, torch.Tensor) and (t_.dtype != want_dt or t_.dim() != 0):
+                    meta.append(f"{nm_}: dtype {t_.dtype}, shape {tuple(t_.shape)}")
+            if is_lm and not isinstance(pg.get("damping"), float):
+                meta.append(f"pg['damping'] is {type(pg.get('damping')).__name__}")
+            for u in ups:
+                for nm_, t_ in zip("J D R last loss".split(), u["refs"]):
+                    if isinstance(t_, torch.Tensor) and t_.dtype != want_dt:
+                        meta.append(f"strategy.update got {nm_} of dtype {t_.dtype}")
+                        break
+            if meta:
+                fail(f"metadata: model dtype {want_dt}, default dtype {scn.get('default_dtype') or 'float32'}: " + "; ".join(meta[:3]) + f" (call {call})")
 
         if not is_lm:
             # ------------------------------------------------------------------ GaussNewton
@@ -1400,7 +1521,7 @@ def _scenario_steps(ctx: Ctx, scn, collect, shared_inner=None, sink=None):
             cur = up["pg_after"]
             h = up["hyper"]
             kind = scn["strategy"]["kind"]
-            if h["smin"] <= h["smax"] and kind != "constant":
+            if h["smin"] <= h["smax"] and kind != "constant" and not own_law:
                 keys = ["damping"] if kind == "adaptive" else ["radius", "down"]
                 for kx in keys:
                     if not (h["smin"] <= cur[kx] <= h["smax"]):
@@ -1416,7 +1537,25 @@ def _scenario_steps(ctx: Ctx, scn, collect, shared_inner=None, sink=None):
         # ---- model requests: per-trial update + the whole loop
         kind = scn["strategy"]["kind"]
         Jc = ups[0]["J"] if ups else None
+        if own_law:
+            # a user strategy deriving from the library class with its own update law: LM must apply exactly that law
+            for j, up in enumerate(ups):
+                wantd = up["pg_before"]["damping"] * 3.0 if float(up["loss"]) > float(up["last"]) else up["pg_before"]["damping"] / 3.0
+                exp_ = dict(up["pg_before"], damping=wantd)
+                if up["pg_after"] != exp_:
+                    fail(f"subclass-strategy: the user's update (damping ×3 after a worse trial, ÷3 otherwise) gives {exp_}, "
+                         f"the param group holds {up['pg_after']} (call {call} update {j})")
         for j, up in enumerate(ups):
+            if own_law:
+                break
+            if up["J"].numel() > 6000:
+                # large problems: the documented rule directly (the 192-bit model would spend its time in J·D)
+                allowed, qx = allowed_verdicts(up["hyper"], up["last"], up["loss"], up["J"], up["D"], up["R"], dtype)
+                if not any(all(abs(doc_update(kind, up["hyper"], up["pg_before"], v_)[kx] - up["pg_after"][kx])
+                               <= 16 * EPS["float64"] * abs(up["pg_after"][kx]) for kx in up["pg_after"]) for v_ in allowed):
+                    fail(f"strategy-{kind}: large problem, quality {float(qx) if qx is not None else 'n/a'}: documented update of "
+                         f"{up['pg_before']} does not give {up['pg_after']} (call {call} update {j})")
+                continue
             collect["upd"].append(upd_request(scn, kind, up, dtype, where=f"call {call} update {j}"))
         if ntr and n_upd == sum(1 for ev in sol if not ev["raised"]) and (not ups or (all(torch.equal(u["J"], Jc) and torch.equal(u["R"], ups[0]["R"]) for u in ups)
                                 and Jc.numel() <= 4000)):
@@ -1446,7 +1585,7 @@ def _scenario_steps(ctx: Ctx, scn, collect, shared_inner=None, sink=None):
                                 "solves": ntr, "live": 0})
             states = [u["pg_after"] for u in ups]
             collect["lm"].append({"line": "c08.lm " + " ".join(toks), "scn": scn, "call": call, "obs": obs, "sol": [e["raised"] for e in sol],
-                                  "states": states, "kind": kind, "ntr": ntr, "pg0": pg_before_call})
+                                  "states": states, "kind": kind, "ntr": ntr, "pg0": pg_before_call, "skip_state": own_law})
         elif ntr == 0:
             fail(f"no-trial: step made no trial at all (call {call})")
         sig = ("lm", scn["family"], kind, reject, rejections, ending, "worse" if retf > optlast else "ok", dtype, min(call, 4))
@@ -1556,7 +1695,7 @@ def settle_lm(ctx: Ctx, items, ambiguous_scn_calls):
         ntr = it["ntr"]
         rows = [nums[9 * i: 9 * i + 9] for i in range(ntr + 1)]
         call = it["call"]
-        skip_state = (id(it["scn"]), call) in ambiguous_scn_calls
+        skip_state = (id(it["scn"]), call) in ambiguous_scn_calls or it.get("skip_state")
         ui = 0
         for t in range(ntr):
             row, ob = rows[t], it["obs"][t]
@@ -1657,6 +1796,8 @@ def gen_strategy_spec(rng, kind=None):
         low = rng.choice([1e-15, 1e3, low])
         damping = rng.choice([1e-30, 1e-15, 1e15, 1e30])
         smin, smax = rng.choice([(1e-300, 1e300), (1e-30, 1e30), (damping, damping), (1e-300, damping), (damping, 1e300)])
+    if kind == "adaptive" and rng.random() < 0.06:
+        smin = rng.choice([0.0, -1.0, -1e-6])          # sign of a bound is a convention, not a validity condition
     spec = {"kind": kind, "damping": damping, "high": high, "low": low, "up": up, "down": down, "factor": factor,
             "min": smin, "max": smax}
     if kind == "trust":
@@ -1723,6 +1864,8 @@ def place_damping(rng, spec, pg, strat):
     if spec["kind"] == "constant":
         return
     lo, hi = strat.min, strat.max
+    if lo <= 0:
+        return          # a non-positive lower bound is legal, a non-positive damping is not
     if spec["kind"] == "adaptive":
         if c < 0.15:
             pg["damping"] = lo
@@ -2009,6 +2152,67 @@ def outputs_wire(outs) -> str:
     return " ".join(toks)
 
 
+def run_large_loss(ctx: Ctx, sizes, rng):
+    """RobustModel.loss on 2^k, 2^k±1 items (several shapes with that item count): float64 oracle, split-consistency
+    loss(x) = loss(x[:a]) + loss(x[a:]) for a few cut points, single items first / last / random alone, and the Lean model
+    on a sample that contains the LAST item"""
+    P = pp()
+    items = []
+    for N in sizes:
+        dtype = rng.choice(["float64", "float32"])
+        dt = getattr(torch, dtype)
+        d = rng.choice([1, 2, 3])
+        kspec = rng.choice([None, ["huber", 1.0], ["shift", 0.5], ["cauchy", 1.0]])
+        g = torch.Generator().manual_seed(rng.randrange(1 << 30))
+        x = (torch.randn(N, d, generator=g, dtype=torch.float64) * rng.choice([0.3, 1.0, 3.0])).to(dt)
+        x[-1] = x[-1] * 0 + 7.0                      # the last item is conspicuous
+        case = {"kind": "large-loss", "N": N, "d": d, "dtype": dtype, "kernel": kspec}
+        shapes = [(N, d)] + ([(N // 2, 2, d)] if N % 2 == 0 else []) + [(1, N, d)]
+        kern = make_kernels(kspec)
+
+        def loss_of(t):
+            class Fixed(nn.Module):
+                def __init__(self):
+                    super().__init__()
+                    self.p = nn.Parameter(torch.zeros(1, dtype=dt))
+
+                def forward(self, _):
+                    return t + 0 * self.p
+            rm = P.optim.LM(Fixed(), kernel=kern).model
+            with torch.no_grad():
+                return float(rm.loss(torch.zeros(1, dtype=dt), None))
+        eps = EPS[dtype]
+        want, scale, _ = loss_and_scale([x], kspec)
+        tol = 64 * eps * max(abs(want), scale) * max(1.0, math.log2(N))
+        vals = [loss_of(x.reshape(shp)) for shp in shapes]
+        for shp, v in zip(shapes, vals):
+            if abs(v - want) > tol:
+                ctx.fail(case, f"robust-loss: {N} items as shape {shp}: RobustModel.loss = {v!r}, Σρ(‖r‖²) = {want!r}")
+        for a in (1, N // 2, N - 1):
+            if 0 < a < N:
+                parts = loss_of(x[:a]) + loss_of(x[a:])
+                if abs(parts - vals[0]) > tol:
+                    ctx.fail(case, f"split-consistency: loss of {N} items = {vals[0]!r} but loss(x[:{a}]) + loss(x[{a}:]) = {parts!r}")
+        for i in (0, N - 1, rng.randrange(N)):
+            one = loss_of(x[i:i + 1])
+            w1, s1, _ = loss_and_scale([x[i:i + 1]], kspec)
+            if abs(one - w1) > 64 * eps * max(abs(w1), s1):
+                ctx.fail(case, f"robust-loss: item {i} of {N} alone: {one!r}, expected {w1!r}")
+        # the Lean model on the last 257 items (incl. the last one) + the loss of the rest from the implementation itself
+        tail = x[-min(N, 257):]
+        head_v = loss_of(x[:-tail.shape[0]]) if tail.shape[0] < N else 0.0
+        items.append({"line": "c08.lossk " + kspec_wire(kspec) + " " + outputs_wire([tail]), "case": case, "got": vals[0] - head_v,
+                      "tol": tol + 64 * eps * abs(head_v)})
+        ctx.count(f"class.large-loss.N={N}")
+        ctx.note_case(("large-loss", N, d, dtype, str(kspec)), True)
+    reps = ctx.driver.run([it["line"] for it in items])
+    for it, rep in zip(items, reps):
+        want = common.reply_nums(rep)[0]
+        if abs(Fraction(it["got"]) - want) > Fraction(it["tol"]):
+            ctx.disagree("large-loss", it["case"], f"loss of the last items: implementation {it['got']!r}, model {float(want)!r}")
+            ctx.fail(it["case"], f"robust-loss: the last items of a batch of {it['case']['N']} contribute {it['got']!r}, expected {float(want)!r}")
+
+
 def loss_case(ctx, case):
     P = pp()
     dt = getattr(torch, case["dtype"])
@@ -2121,7 +2325,39 @@ def gen_scenario(rng, quick, opt="lm"):
         scn["good_scale"] = rng.choice([1.0, 1.0, 0.5, -2.0, 3.0])
     harden_scenario(rng, scn)
     harden2_scenario(rng, scn)
+    harden4_scenario(rng, scn)
     return scn
+
+
+def harden4_scenario(rng, scn):
+    """user subclasses of library classes, per-call grad modes, process-wide default dtype, negative losses, large counts"""
+    fam, opt = scn["family"], scn["opt"]
+    if opt == "lm" and rng.random() < 0.2:
+        scn["sub_strategy"] = rng.choice(["delegate", "delegate", "own"])
+        scn.pop("pg_edits", None) if scn["sub_strategy"] == "own" else None
+    if scn.get("solver") in ("cholesky", "pinv", "lstsq") and rng.random() < 0.2:
+        scn["sub_solver"] = True
+    if rng.random() < 0.12:
+        scn["sub_model"] = True
+    if rng.random() < 0.12 and (scn.get("kernel") is None or isinstance(scn["kernel"][0], str)):
+        scn["kernel"] = ["shift", rng.choice([0.5, 1.0, 3.0])]          # user kernel, negative losses
+    if rng.random() < 0.12:
+        scn["grad_modes"] = [rng.choice([None, "no_grad", "enable_grad"]) for _ in range(3)]
+        scn["req_grads"] = [rng.random() < 0.5 for _ in range(4)]
+    if rng.random() < 0.15:
+        scn["default_dtype"] = "float64" if scn["dtype"] == "float32" else rng.choice(["float64", "float32"])
+    if fam == "lin" and rng.random() < 0.06:
+        k = rng.choice([5, 7, 9, 10])
+        scn["M"], scn["d"], scn["n"] = (2 ** k) + rng.choice([-1, 0, 1]), 1, rng.choice([1, 2, 3])
+        scn["ncalls"] = min(scn["ncalls"], 2)
+        scn.pop("weight", None)
+        scn["out3d"] = False
+    if fam == "lin" and rng.random() < 0.04:
+        scn["n"] = rng.choice([31, 32, 33, 65])
+        scn["M"], scn["d"] = scn["n"] + rng.choice([0, 1, 5]), 1
+        scn["ncalls"] = min(scn["ncalls"], 2)
+        scn.pop("weight", None)
+        scn["out3d"] = False
 
 
 SIZES = [(1, 1, 1), (3, 3, 3), (3, 1, 3), (1, 3, 3), (2, 3, 2), (5, 2, 3), (7, 1, 1), (3, 3, 1), (2, 1, 6), (4, 5, 1)]
@@ -2164,7 +2400,10 @@ def harden2_scenario(rng, scn):
             scn["fwd_raise"] = [[c, "pre"]]
 
 
-TWIN_VARIANTS = [{"call_style": "keyword"}, {"call_style": "mixed"}, {"ctor_style": "positional"}, {"input_container": "tuple"},
+TWIN_VARIANTS = [{"grad_modes": ["no_grad", None, "enable_grad"], "req_grads": [False, True, True]},
+                 {"grad_modes": ["enable_grad", "no_grad"], "req_grads": [True, False]}, {"default_dtype": "float64"},
+                 {"default_dtype": "float64", "ctor_style": "positional"}, {"sub_strategy": "delegate"}, {"sub_solver": True},
+                 {"call_style": "keyword"}, {"call_style": "mixed"}, {"ctor_style": "positional"}, {"input_container": "tuple"},
                  {"input_container": "list"}, {"input_container": "dict"}, {"grad_mode": "enable_grad"},
                  {"grad_mode": "enable_grad", "input_requires_grad": True}, {"grad_mode": "no_grad"}, {"kernel_wrap": "list1"},
                  {"forms": ["clone"]}, {"copy_what": "state_dict"}, {"copy_what": "strategy-deepcopy"}, {"copy_what": "strategy-copy"},
@@ -2279,7 +2518,7 @@ def run_opt_stream(ctx: Ctx, scns):
 
 
 TWIN_KEYS = ("call_style", "ctor_style", "input_container", "scalar_input", "grad_mode", "input_requires_grad", "kernel_wrap",
-             "copy_at", "copy_what", "forms")
+             "copy_at", "copy_what", "forms", "grad_modes", "req_grads", "default_dtype", "sub_strategy", "sub_solver")
 
 
 def run_twin(ctx: Ctx, scn, collect):
@@ -2370,14 +2609,15 @@ def pair_scenarios(rng, n, quick=True):
     return out
 
 
-def corpus_scenarios():
+def corpus_scenarios(quick=True):
     """deterministic corner corpus (independent of VERIF_SEED), run before anything random"""
     import random
     rc = random.Random(0xC08)
     out = []
     # every ending after every k <= reject+1 rejections, three strategies, three calls (counter / cache / damping carry over)
-    out += script_scenarios(rc, [0, 1, 3], ["constant", "adaptive", "trust"])
-    out += script_scenarios(rc, [16], ["trust"], ks={0, 1, 8, 15, 16, 17})
+    out += script_scenarios(rc, [0, 1], ["constant", "adaptive", "trust"])
+    out += script_scenarios(rc, [3], ["constant", "adaptive", "trust"], ncalls_extra=not quick)
+    out += script_scenarios(rc, [16], ["trust"], ks={0, 1, 8, 15, 16, 17}, ncalls_extra=not quick)
     dflt = {"constant": {"kind": "constant", "damping": 1e-4, "high": 0.5, "low": 1e-3, "up": 2.0, "down": 0.5, "factor": 0.5,
                          "min": 1e-6, "max": 1e16},
             "adaptive": {"kind": "adaptive", "damping": 1e-2, "high": 0.5, "low": 1e-3, "up": 3.0, "down": 0.4, "factor": 0.5,
@@ -2425,6 +2665,44 @@ def corpus_scenarios():
     for fam in ("lin", "so3"):
         out.append({**base(fam, "constant", M=1), "opt": "gn", "ncalls": 5, "raise_at": [1, 3], "forms": ["strided", "plain", "slice"],
                     "kernel": ["huber", 1.0], "solver": "pinv", "good_scale": 0.5})
+    # ---- pass 4
+    for kind in ("constant", "adaptive", "trust"):
+        # user subclasses of library classes: strategy (library rule through the subclass / its own law), solver, kernel, model
+        out.append(base("lin", kind, sub_strategy="delegate", bad=[1, 2, 0, 1], good_scale=0.3, raise_at=[2]))
+        out.append(base("atan", kind, start=0.2, sub_strategy="own", ncalls=4))
+        out.append(base("lin", kind, sub_solver=True, solver="cholesky", bad=[1, 0, 2, 0], good_scale=0.3, raise_at=[1]))
+        out.append(base("lin", kind, sub_solver=True, solver="pinv", sub_strategy="delegate", sub_model=True, kernel=["shift", 1.0],
+                        bad=[2, 0, 1, 0], good_scale=0.3))
+        out.append(base("mixed", kind, M=1, start=0.5, kernel=[["shift", 0.5], ["huber", 1.0]], sub_model=True, bad=[1, 0, 1, 0],
+                        good_scale=0.3, ncalls=3))
+        # negative losses (user kernel), sign conventions
+        out.append(base("lin", kind, kernel=["shift", 3.0], bad=[1, 3, 0, 6], good_scale=0.3, raise_ct=[[1, 2]]))
+        out.append({"kind": "opt", "opt": "lm", "family": "script1d", "fam_seed": 0, "dtype": "float64", "reject": 2, "ncalls": 3,
+                    "scripts": ["WB", "E", "WWW"], "start": 0.25, "lm_min": 1e-6, "lm_max": 1e32, "solver": "solve",
+                    "kernel": ["shift", 2.0], "strategy": dict(dflt[kind]), "n": 1, "M": 1, "d": 1})
+        # a cache must not be poisoned by the mode of an earlier call: orders of grad modes / operands requiring grad
+        for gm, rg in ((["no_grad", None, "enable_grad", None], [False, True, True, False]),
+                       (["enable_grad", "no_grad", None, "enable_grad"], [True, False, False, True])):
+            b_ = base("lin", kind, bad=[1, 0, 2, 0], good_scale=0.3)
+            b_["twin"] = {"grad_modes": gm, "req_grads": rg}
+            out.append(b_)
+        # process-wide default dtype × model dtype (metadata oracle + twin)
+        for dd_, mdt in (("float64", "float32"), ("float32", "float64"), ("float64", "float64")):
+            b_ = base("lin" if kind != "trust" else "se3", kind, M=2, dtype=mdt, start=0.5, bad=[1, 0, 2, 0], good_scale=0.3,
+                      kernel=["huber", 1.0])
+            b_["twin"] = {"default_dtype": dd_}
+            out.append(b_)
+        # many residuals / parameters around 2^k
+        M_ = {"constant": 1023, "adaptive": 1024, "trust": 1025}[kind]
+        if not quick or kind == "trust":
+            out.append(base("lin", kind, n=2, M=M_, d=1, ncalls=2, bad=[1, 0], good_scale=0.5, kernel=["huber", 1.0],
+                            dtype=("float64", "float32")[M_ % 2]))
+        out.append(base("lin", kind, n=(31, 32, 33)[("constant", "adaptive", "trust").index(kind)], M=40, d=1, ncalls=2,
+                        bad=[1, 0], good_scale=0.5))
+    if not quick:
+        out.append(base("lin", "trust", n=2, M=16385, d=1, ncalls=1, bad=[1], good_scale=0.5, kernel=None))
+        out.append(base("lin", "adaptive", n=1, M=4097, d=1, ncalls=2, bad=[1, 0], good_scale=0.5, kernel=["huber", 1.0], dtype="float32"))
+    out.append(base("lin", "adaptive", n=129, M=130, d=1, ncalls=2, bad=[1, 0], good_scale=0.5, solver="pinv"))
     # ---- hardening pass 2
     for kind in ("constant", "adaptive", "trust"):
         # accept test without tolerance: a trial a couple of ulps worse / better after k rejections
@@ -2521,15 +2799,48 @@ def alias_probes(ctx: Ctx):
         ctx.notes.append(f"probe failed: {e!r}")
 
 
+def run_tie_updates(ctx: Ctx):
+    """exact coincidences: damping exactly on min / max, damping·up exactly max, damping·down exactly min, high == low,
+    quality exactly on a threshold (all dyadic: every float operation is exact), for every strategy and both dtypes"""
+    reqs = []
+    for kind in ("adaptive", "trust"):
+        for dtype in ("float64", "float32"):
+            dt = getattr(torch, dtype)
+            for (lo, hi, dmp, up, down) in ((0.25, 4.0, 0.25, 2.0, 0.5), (0.25, 4.0, 4.0, 2.0, 0.5), (0.25, 4.0, 2.0, 2.0, 0.5),
+                                            (0.25, 4.0, 0.5, 2.0, 0.5), (1.0, 1.0, 1.0, 4.0, 0.25), (0.125, 8.0, 1.0, 8.0, 0.125)):
+                for (high, low) in ((0.5, 0.125), (0.25, 0.25)):
+                    for qv in (high, low, 0.375, -1.0, 2.0):
+                        spec = {"kind": kind, "damping": dmp, "radius": 1.0 / dmp, "high": high, "low": low, "up": up, "down": down,
+                                "factor": 0.5, "min": lo, "max": hi}
+                        strat = make_strategy(spec)
+                        pg = dict(strat.defaults)
+                        rec = RecStrategy(strat)
+                        J = torch.tensor([[1.0]], dtype=dt)
+                        D = torch.tensor([[1.0]], dtype=dt)
+                        R = torch.tensor([[-1.0]], dtype=dt)          # den = 1, quality = last - loss exactly
+                        last, loss = torch.tensor(qv + 2.0, dtype=dt), torch.tensor(2.0, dtype=dt)
+                        case = {"kind": "upd", "spec": spec, "pg": {k: float(v) for k, v in pg.items()}, "dtype": dtype,
+                                "last": float(last), "loss": float(loss), "J": J.tolist(), "D": D.tolist(), "R": R.tolist()}
+                        rec.update(pg, last=last, loss=loss, J=J, D=D, R=R)
+                        up_ = rec.log[-1]
+                        check_bounds_direct(ctx, case, kind, up_)
+                        reqs.append(upd_request(case, kind, up_, dtype, where="tie corpus"))
+                        ctx.count("class.tie-update")
+    settle_updates(ctx, reqs, "tie")
+
+
 def run_corpus(ctx: Ctx):
     import random
     rc = random.Random(0xC08C)
     run_upd_stream(ctx, 300, rc)
     run_init_stream(ctx, 60, rc)
+    run_tie_updates(ctx)
+    run_large_loss(ctx, [255, 257, 4097, 16385, 65537] if ctx.quick else
+                   [2 ** k + e_ for k in range(6, 17) for e_ in (-1, 0, 1)] + [100003, 131073], rc)
     run_hist_stream(ctx, 24, rc)
     run_edithist_stream(ctx, 20, rc)
     run_loss_stream(ctx, 40, rc)
-    run_opt_stream(ctx, corpus_scenarios())
+    run_opt_stream(ctx, corpus_scenarios(ctx.quick))
     alias_probes(ctx)
 
 
@@ -2543,7 +2854,7 @@ def run(ctx: Ctx):
     torch.set_num_threads(1)      # tiny tensors: threads only add contention on a shared box
     reset_shared()
     run_corpus(ctx)
-    run_upd_stream(ctx, ctx.pick(1000, 12000))
+    run_upd_stream(ctx, ctx.pick(800, 12000))
     run_init_stream(ctx, ctx.pick(60, 600))
     run_hist_stream(ctx, ctx.pick(60, 600))
     run_edithist_stream(ctx, ctx.pick(20, 300))
@@ -2556,10 +2867,10 @@ def run(ctx: Ctx):
     else:
         scr = script_scenarios(rng, list(range(0, 17)), ["constant", "adaptive", "trust"])
     run_opt_stream(ctx, scr)
-    scns = [gen_scenario(rng, ctx.quick, "lm") for _ in range(ctx.pick(90, 900))]
+    scns = [gen_scenario(rng, ctx.quick, "lm") for _ in range(ctx.pick(70, 900))]
     scns += [gen_scenario(rng, ctx.quick, "gn") for _ in range(ctx.pick(25, 200))]
     scns += pair_scenarios(rng, ctx.pick(8, 80), ctx.quick)
-    scns += twin_scenarios(rng, ctx.pick(20, 250), ctx.quick)
+    scns += twin_scenarios(rng, ctx.pick(16, 250), ctx.quick)
     run_opt_stream(ctx, scns)
 
 
